@@ -44,6 +44,10 @@ def _is_sym_arr(a):
     return isinstance(a, _np.ndarray) and a.dtype == object
 
 
+def lift_s(x):
+    return x if isinstance(x, S) else S(lift(x))
+
+
 class _Linalg(object):
     def __getattr__(self, k):
         return getattr(_np.linalg, k)
@@ -338,7 +342,24 @@ class NPShim(object):
         a_, b_ = _np.asarray(a), _np.asarray(b)
         if a_.dtype != object and b_.dtype != object:
             return _np.allclose(a, b, rtol=float(rtol), atol=float(atol), **kw)
-        raise SymbolicConcretisation("allclose on symbolic arrays")
+        # numpy's definition, element by element: |a - b| <= atol + rtol * |b|; every comparison on a symbolic element is a fork of
+        # the path explorer (so "close but not equal" inputs are explored like any other region)
+        from fractions import Fraction as _Fr
+        rt = rtol if isinstance(rtol, (S, _Fr)) else _Fr(repr(float(rtol)))
+        at = atol if isinstance(atol, (S, _Fr)) else _Fr(repr(float(atol)))
+        a_, b_ = _np.broadcast_arrays(_np.asarray(a, dtype=object), _np.asarray(b, dtype=object))
+        for x, y in zip(a_.ravel(), b_.ravel()):
+            d = x - y
+            if not isinstance(d, S) and not isinstance(y, S):
+                if not (abs(d) <= at + rt * abs(y)):
+                    return False
+                continue
+            # one fork per element: |d| <= t with t = atol + rtol |y| >= 0 is d^2 <= t^2; |y| as the root of y^2 (no case split)
+            ay = (lift_s(y) * lift_s(y)) ** _Fr(1, 2)
+            t = at + rt * ay
+            if not (lift_s(d) * lift_s(d) <= t * t):
+                return False
+        return True
 
     def argsort(self, a, *args, **kw):
         a_ = _np.asarray(a)
